@@ -65,6 +65,7 @@ def deviations(sched: List[Dict[str, Any]], bound: int, tier: str) -> List[List[
             singles.append(("tick", i, dt))
         singles.append(("ctl", i, None))
     for i in range(len(sched)):
+        singles.append(("burst", i, None))  # K's burst of hostile requests and foreign-layout frames (see execute)
         for slot in ("R1", "R2", "K", "L"):  # L: the logger is waited for and written on the manager's blocking path
             singles.append(("nw", i, slot))
         # a receiver that select() still reports writable but whose send buffer has room for 100 bytes only (a blocking send
@@ -98,6 +99,8 @@ def deviations(sched: List[Dict[str, Any]], bound: int, tier: str) -> List[List[
                     st["tick"] = arg
                 elif kind == "ctl":
                     st["ctl"] = True
+                elif kind == "burst":
+                    st["burst"] = True
                 elif kind == "cong":
                     st["cong"] = st.get("cong", []) + [arg]
                 elif kind == "die":
@@ -204,10 +207,14 @@ def execute(case) -> Dict[str, Any]:
                 if buf:
                     w.clients[slot].send(buf)
             if st.get("ctl"):
-                # K's requests: an ordinary one, requests naming ids no message can have (each is answered on K's connection, and
-                # whatever the manager writes there is a whole, counted frame), and data frames whose type id the core definitions
-                # know - with a payload length that is NOT the one of the manager's own definition (another build's layout)
-                kbuf = P.mkframe(P.MT_SUBSCRIBE, P.p_sub(1002), timecode=tc, src_mod_id=IDS["K"])
+                # one ordinary request of K: its acknowledgement (and the copy the logger gets) is a frame of its own kind in this
+                # round, so its place relative to the data frames can be compared across connections
+                w.clients["K"].send(P.mkframe(P.MT_SUBSCRIBE, P.p_sub(1002), timecode=tc, src_mod_id=IDS["K"]))
+            if st.get("burst"):
+                # K's burst: requests naming ids no message can have (each is answered on K's connection, and whatever the manager
+                # writes there is a whole, counted frame), and data frames whose type id the core definitions know - with a payload
+                # length that is NOT the one of the manager's own definition (another build's layout)
+                kbuf = b""
                 for mt, arg in ((P.MT_SUBSCRIBE, -1), (P.MT_RESUME_SUBSCRIPTION, -7), (P.MT_PAUSE_SUBSCRIPTION, -2), (P.MT_UNSUBSCRIBE, -1),
                                 (P.MT_SUBSCRIBE, -2 ** 31), (P.MT_SUBSCRIBE, P.MAX_MESSAGE_TYPES)):
                     kbuf += P.mkframe(mt, P.p_sub(arg), timecode=tc, src_mod_id=IDS["K"])
@@ -235,7 +242,7 @@ def execute(case) -> Dict[str, Any]:
                 break
             collect()
         if w.alive:
-            w.settle()
+            w.settle(limit=10 ** 4)
             collect()
     finally:
         w.stop()
